@@ -104,7 +104,7 @@ def main(argv=None):
         if got is None:
             continue
         m, text, c = got
-        removed = check_model(rep, drv, gen, rng, m, text, c)
+        removed = core.guarded(rep, text, check_model, rep, drv, gen, rng, m, text, c)
         rep.case(key=text, nontrivial=bool(removed))
         rep.count("models_where_removal_changes_the_program", 1 if removed else 0)
         rep.sample({"text": text, "unused": m["unused"]}, limit=2)
